@@ -50,6 +50,11 @@ try:
 except ImportError:
     pass
 try:
+    import gen_tmp
+    MODULES['Tmp'] = gen_tmp.generate
+except ImportError:
+    pass
+try:
     import gen_keys
     MODULES['Keys'] = gen_keys.generate
 except ImportError:
